@@ -152,6 +152,9 @@ func nodeCfg(addr string, useTLS bool) (*actor.Engine, *remote.Remote, string, e
 type Step struct {
 	T   int  `json:"t"`             // target index; targets 0..TB-1 live on node B, the rest on node C
 	Req bool `json:"req,omitempty"` // a Request instead of a Send
+	// Bad: just before this step the sender hands the same target something that cannot be serialised
+	// (1 = a plain Go string, 2 = a protobuf message with invalid UTF-8); it is dropped on its own
+	Bad int `json:"bad,omitempty"`
 }
 
 type FCase struct {
@@ -272,6 +275,9 @@ func runFlows(c FCase) (map[string]int, error) {
 			if st.Req {
 				feat["request"]++
 			}
+			if st.Bad != 0 {
+				feat["unserialisable-message-in-the-flow"]++
+			}
 		}
 	}
 	senderPID := func(g int) *actor.PID {
@@ -289,6 +295,12 @@ func runFlows(c FCase) (map[string]int, error) {
 			defer wg.Done()
 			<-start
 			for s, st := range sc {
+				switch st.Bad {
+				case 1:
+					a.Send(pids[st.T], fmt.Sprintf("not a protobuf message %d:%d", g, s))
+				case 2:
+					a.Send(pids[st.T], &actor.PID{Address: "\xff\xfe", ID: "invalid utf-8"})
+				}
 				if st.Req {
 					msg := &remote.TestMessage{Data: []byte(fmt.Sprintf("%d:%d:req", g, s))}
 					v, err := a.Request(pids[st.T], msg, wait).Result()
@@ -422,6 +434,9 @@ func genFlows(t *rapid.T) FCase {
 		for j := range sc {
 			sc[j].T = rapid.IntRange(0, c.TB+c.TC-1).Draw(t, "t")
 			sc[j].Req = rapid.IntRange(0, 9).Draw(t, "req") == 0
+			if rapid.IntRange(0, 11).Draw(t, "bad") == 0 {
+				sc[j].Bad = rapid.IntRange(1, 2).Draw(t, "badkind")
+			}
 		}
 		c.Scripts = append(c.Scripts, sc)
 	}
